@@ -116,6 +116,7 @@ package object
 //@   ensures [size-consistent] {C01,C19} err == nil ==> o != nil && o.Size == len(o.Data)
 //@   ensures [hash==requested] {C19,C01} err == nil ==> string(o.Hash) == string(hash)
 //@   ensures [absent] {C01} isAbsent(fs, objPath(rootGoitPath, hash)) ==> err != nil
+//@   ensures [payload] {C08,C09} err == nil ==> string(o.Data) == payloadOf(zlibDec(content(fs, objPath(rootGoitPath, hash)))) && isFile(fs, objPath(rootGoitPath, hash))
 //@   ensures [nil] err != nil ==> o == nil
 
 // ---- commits
@@ -148,3 +149,13 @@ package object
 //@   modifies $rdpos, $hashdata
 //@   ensures [shape] err == nil ==> t != nil && fresh(t) && treeWF(t.Children)
 //@   ensures [nil] err != nil ==> t == nil
+
+// ---- working tree
+
+//@ pred workPath(root, path) := pjoin(pdir(root), path)
+
+//@ func Object.ReflectToWorkingTree
+//@   returns err
+//@   modifies fs
+//@   ensures [bytes] {C08} err == nil ==> isFile(fs, workPath(rootGoitPath, path)) && content(fs, workPath(rootGoitPath, path)) == string(o.Data)
+//@   ensures [others] {C08} forall q string :: q != workPath(rootGoitPath, path) ==> ((isFile(old(fs), q) || isFile(fs, q)) ==> fs[q] == old(fs)[q])
